@@ -67,7 +67,7 @@ Section RunField.
   Definition de_flags (FT : FlagTy) (code : ft_T FT -> Z) (bs : list Z) : list (list Z) :=
     out_res (c_dec C FT bs) (fun r =>
       let x := fst (fst r) in let f := snd (fst r) in
-      [tw_to W x; [code f]; [zlen bs - zlen (snd r)]; bytes_of (c_enc C FT x f) (fun b => b)]).
+      [tw_to W x; [code f]; [zlen bs - zlen (snd r)]; bytes_of (c_enc C FT x f) (fun b => b); [c_size C FT]]).
 
   Definition run_field (op : Z) (a : list (list Z)) : list (list Z) :=
     let ft := argz 0 2 a in
@@ -88,7 +88,7 @@ Section RunField.
            | _ => unsupported
            end
     | 4 => out_res (c_decp C payload) (fun r =>
-             [tw_to W (fst r); [zlen payload - zlen (snd r)]; bytes_of (c_encp C (fst r)) (fun b => b)])
+             [tw_to W (fst r); [zlen payload - zlen (snd r)]; bytes_of (c_encp C (fst r)) (fun b => b); [c_sizep C]])
     | 9 => let c := tw_cmp W (tw_of W payload) (tw_of W (arg 4 a)) in
            let code := match c with Lt => 0 | Eq => 1 | Gt => 2 end in
            let lt := match c with Lt => 1 | _ => 0 end in
